@@ -145,6 +145,10 @@ def run(prop, tier, extra=None):
     mcp = cd.mc_programs(out, prop, tier)
     out.cov['programs_emitted_by_tlc'] = len(mcp)
     cd.run_programs(out, mcp + progs, c['enforce'], prop, prop=c['prop'])
+    # code -> spec on the repository's own tests (DESIGN.md 4.5): the calls
+    # its tests make, validated for this property's clauses
+    import suite
+    suite.run_suite(out, tier, c['enforce'], c['prop'])
     out.cov['rule'] = ('seeded random programs over templates T1-T5 (depth %s,'
                        ' focus %s); a case is non-trivial when at least one '
                        'call returned a new file; distinct = template + '
